@@ -307,6 +307,26 @@ class Check:
             self.known_lines.append(line)
             print(line, flush=True)
 
+    def conclude(self, spec_failures: list, disagreements: list, proofs_ok: bool, broken: str, search: str) -> None:
+        """the verdict protocol of DESIGN.md section 5"""
+        self.coverage["disagreements_checked"] = len(disagreements)
+        hint = "cd /verif && VERIF_SEED=%d ./check %s --tier %s" % (seed(), self.pid, tier())
+        if spec_failures:
+            c = dict(spec_failures[0])
+            c["how_to_replay"] = hint
+            c["all_failures"] = len(spec_failures)
+            self.violation(c, "spec")
+        elif disagreements:
+            c = dict(disagreements[0])
+            c["broken"] = broken
+            c["all_disagreements"] = len(disagreements)
+            c["search"] = search
+            c["how_to_replay"] = hint
+            self.violation(c, "tie", no_input=True)
+        if not proofs_ok:
+            self.violation({"broken": "proof obligations of Props/%s.v" % self.pid, "detail": self.broken_obligation},
+                           "proof", no_input=not spec_failures)
+
     def finish(self, rule: str, extra: dict | None = None) -> int:
         cov = self.coverage
         cov.update({
